@@ -1,6 +1,6 @@
 //! Virtual-time runtime, quiescence detection.
 
-use std::{future::Future, time::Duration};
+use std::{future::Future, pin::Pin, task::{Context, Poll}, time::Duration};
 
 use crate::simnet::progress;
 
@@ -30,6 +30,12 @@ pub fn run_threads<F: Future>(workers: usize, fut: F) -> F::Output {
     out
 }
 
+thread_local! {
+    /// Set when a quiescence decision on this thread had to be taken on the real-time path (helper threads
+    /// alive): such a decision depends on OS scheduling, the run is then not a deterministic function of its seed.
+    pub static REALTIME_USED: std::cell::Cell<bool> = const { std::cell::Cell::new(false) };
+}
+
 /// Waits for quiescence: returns when the progress counter (wire events, API events, polls of internal and
 /// harness tasks) did not move across a pause during which the runtime was idle.
 ///
@@ -44,6 +50,7 @@ pub fn run_threads<F: Future>(workers: usize, fut: F) -> F::Output {
 pub async fn settle() -> u32 {
     let mut n = 0;
     let mut idle_rounds = 0;
+    let mut idle_since: Option<std::time::Instant> = None;
     loop {
         let p0 = progress();
         let m = tokio::runtime::Handle::current().metrics();
@@ -64,6 +71,15 @@ pub async fn settle() -> u32 {
             }
             n += 1;
             if virt && progress() == p0 {
+                if std::env::var("HARNESS_SELFCHECK").is_ok() {
+                    let _ = tokio::task::spawn_blocking(|| std::thread::sleep(Duration::from_millis(30))).await;
+                    for _ in 0..5 {
+                        tokio::task::yield_now().await;
+                    }
+                    if progress() != p0 {
+                        eprintln!("FALSE-QUIESCENCE(virtual): progress moved {} -> {} after the decision; threads: {:?}", p0, progress(), thread_states());
+                    }
+                }
                 return n;
             }
             idle_rounds = 0;
@@ -73,9 +89,12 @@ pub async fn settle() -> u32 {
                 tokio::task::yield_now().await;
             }
             n += 1;
+            REALTIME_USED.with(|f| f.set(true));
             if progress() == p0 && m.blocking_queue_depth() == 0 && helper_threads_blocked() {
                 idle_rounds += 1;
-                if idle_rounds >= 6 {
+                let since = *idle_since.get_or_insert_with(std::time::Instant::now);
+                // at least six rounds and five milliseconds of real time without any sign of life
+                if idle_rounds >= 6 && since.elapsed() >= Duration::from_millis(5) {
                     if std::env::var("HARNESS_SELFCHECK").is_ok() {
                         let _ = tokio::task::spawn_blocking(|| std::thread::sleep(Duration::from_millis(30))).await;
                         for _ in 0..5 {
@@ -89,6 +108,7 @@ pub async fn settle() -> u32 {
                 }
             } else {
                 idle_rounds = 0;
+                idle_since = None;
             }
         }
         if n > 200_000 {
@@ -207,12 +227,59 @@ pub fn thread_prefix() -> String {
 
 /// Runs `fut` until it completes or until quiescence is reached (nothing can make progress any more
 /// without a timer or an external action), in which case `None` is returned and `fut` is dropped.
-/// Work done *inside* `fut` itself is not counted as progress: `fut` should only wait for spawned (counted)
-/// tasks, simnet traffic or remoc's internal tasks.
+///
+/// A wake-up *of `fut` itself* counts as progress (something it waits for happened: a chunk handed over by a
+/// helper thread, a frame that reached its port), so quiescence cannot be declared while `fut` is still being
+/// driven forward by events the progress counter does not see. Polls of `fut` that merely happen because the
+/// other branch was woken do not count.
 pub async fn or_quiescent<F: Future>(fut: F) -> Option<F::Output> {
     tokio::select! {
         biased;
-        v = fut => Some(v),
+        v = WakeCounted::new(fut) => Some(v),
         _ = settle() => None,
+    }
+}
+
+struct WakeFlag {
+    woken: std::sync::atomic::AtomicBool,
+    inner: std::sync::Mutex<Option<std::task::Waker>>,
+}
+
+impl std::task::Wake for WakeFlag {
+    fn wake(self: std::sync::Arc<Self>) {
+        self.wake_by_ref();
+    }
+    fn wake_by_ref(self: &std::sync::Arc<Self>) {
+        self.woken.store(true, std::sync::atomic::Ordering::SeqCst);
+        let w = self.inner.lock().unwrap().clone();
+        if let Some(w) = w {
+            w.wake();
+        }
+    }
+}
+
+/// Polls the inner future with a waker of its own and counts a poll that follows a wake-up of that waker as
+/// progress of the shard.
+struct WakeCounted<F> {
+    fut: Pin<Box<F>>,
+    flag: std::sync::Arc<WakeFlag>,
+}
+
+impl<F: Future> WakeCounted<F> {
+    fn new(fut: F) -> Self {
+        Self { fut: Box::pin(fut), flag: std::sync::Arc::new(WakeFlag { woken: std::sync::atomic::AtomicBool::new(false), inner: std::sync::Mutex::new(None) }) }
+    }
+}
+
+impl<F: Future> Future for WakeCounted<F> {
+    type Output = F::Output;
+    fn poll(mut self: Pin<&mut Self>, cx: &mut Context<'_>) -> Poll<Self::Output> {
+        *self.flag.inner.lock().unwrap() = Some(cx.waker().clone());
+        if self.flag.woken.swap(false, std::sync::atomic::Ordering::SeqCst) {
+            crate::simnet::bump_poll();
+        }
+        let waker = std::task::Waker::from(self.flag.clone());
+        let mut cx2 = Context::from_waker(&waker);
+        self.fut.as_mut().poll(&mut cx2)
     }
 }
